@@ -12,7 +12,7 @@ F(e, f, d) == IF f \in DOMAIN e THEN e[f] ELSE d
 VARIABLES tid, l, exp, seen, bad
 vars == <<tid, l, exp, seen, bad>>
 Init == /\ tid \in 1..N /\ l = 1 /\ bad = "" /\ seen = {}
-        /\ exp = [on |-> FALSE, st |-> <<>>, end |-> <<>>, xs |-> <<>>]
+        /\ exp = [on |-> FALSE, st |-> <<>>, end |-> <<>>, xs |-> <<>>, mode |-> "cancel"]
 Fail(c) == bad' = c /\ UNCHANGED <<exp, seen>>
 Step ==
   /\ l <= Len(Traces[tid]) /\ bad = ""
@@ -20,7 +20,8 @@ Step ==
   /\ LET e == Traces[tid][l] IN
      CASE e.e = "sc" ->
             LET o == Outcome(e.P, e.xs) IN
-            exp' = [on |-> TRUE, st |-> o.st, end |-> o.end, xs |-> e.xs] /\ UNCHANGED <<seen, bad>>
+            exp' = [on |-> TRUE, st |-> o.st, end |-> o.end, xs |-> e.xs, mode |-> F(e, "mode", "cancel")]
+            /\ UNCHANGED <<seen, bad>>
        [] e.e = "xbad" -> Fail("C13.not_representable")
        [] e.e = "xb" ->
             IF e.t # R(exp.xs[e.i].s) THEN Fail("C13.start_time") ELSE UNCHANGED <<exp, seen, bad>>
@@ -30,7 +31,12 @@ Step ==
                  (IF Less(e.t, exp.end[e.i]) THEN Fail("C13.completion_too_early") ELSE Fail("C13.completion_too_late"))
             ELSE seen' = seen \cup {e.i} /\ UNCHANGED <<exp, bad>>
        [] e.e = "xu" ->
-            IF exp.st[e.i] # "cancelled" \/ e.t # exp.end[e.i] THEN Fail("C13.abort_time")
+            \* (forced close by an until block whose date ties with the completion: the block's trigger was queued
+            \* first, so the transfer is closed at the very date at which it would have completed)
+            IF exp.mode = "close" /\ exp.st[e.i] = "done" /\ e.t = exp.end[e.i]
+                  /\ e.t = R(exp.xs[e.i].s + exp.xs[e.i].c)
+            THEN seen' = seen \cup {e.i} /\ UNCHANGED <<exp, bad>>
+            ELSE IF exp.st[e.i] # "cancelled" \/ e.t # exp.end[e.i] THEN Fail("C13.abort_time")
             ELSE seen' = seen \cup {e.i} /\ UNCHANGED <<exp, bad>>
        [] e.e = "fin" ->
             IF e.out.k # "ok" THEN Fail("C13.run_failed")
